@@ -8,7 +8,7 @@ EXPLANATION = (
     "cancelled, get_group_ids(group) == exactly those task ids."
 )
 ASSUMPTIONS = ["bounds: num <= 3, <= 3 competing requests, sizes {1,2,inf}; individual cancel() only aimed at other groups"]
-BUDGET = {"quick": 150, "thorough": 2400}
+BUDGET = {"quick": 150, "thorough": 900}
 MON = ["C04"]
 
 
